@@ -94,10 +94,12 @@ Section Ser.
     apply andb_true_iff in H. destruct H as [H _]. apply Nat.eqb_eq in H. exact H.
   Qed.
 
-  (* WifDecoder.Decode(str, net_ver) with a one-byte net version (every configured one is) *)
-  Lemma wif_decode_family s nv : in_family (wif_decode alph radix cklen sha256 s [nv]) = true.
+  (* WifDecoder.Decode(str, net_ver), any net_ver (one that is not a single byte is a ValueError since the
+     repair of C14-WIF-NETVER) *)
+  Lemma wif_decode_family s nvb : in_family (wif_decode alph radix cklen sha256 s nvb) = true.
   Proof.
-    unfold wif_decode. apply fam_bind; [apply b58_check_decode_family|]. intros dec _.
+    unfold wif_decode. destruct nvb as [|nv [|? ?]]; cbn [length Nat.eqb negb]; try reflexivity.
+    apply fam_bind; [apply b58_check_decode_family|]. intros dec _.
     destruct (Nat.eqb_spec (length dec) 0) as [L0|L0]; [reflexivity|].
     apply fam_bind; [apply nth_error_in_range; lia|]. intros b0 _.
     cbn [ord1 bind Ok].
@@ -223,23 +225,3 @@ Section Bip38.
   Qed.
 End Bip38.
 
-(* ------------------------------------------------------------------ WIF: the net_ver argument (a real escape)
-   FULL-STRENGTH statement, FALSE of the model (which is faithful to the code):
-     forall s net_ver, in_family (wif_decode ... s net_ver) = true.
-   ord(net_ver) raises TypeError for every net_ver that is not exactly one byte, once the Base58Check layer has
-   delivered a non-empty payload.  [wif_decode_family] above is the partial statement (one-byte net_ver). *)
-Lemma wif_decode_bad_net_ver alph radix cklen sha256 s nv b0 rest :
-  check_decode alph radix cklen sha256 s = Ok (b0 :: rest) -> length nv <> 1%nat ->
-  wif_decode alph radix cklen sha256 s nv = Err TypeError.
-Proof.
-  intros D L. unfold wif_decode. rewrite D. cbn [bind Ok length Nat.eqb nth_error of_option].
-  destruct nv as [|v [|w t]]; [reflexivity|simpl in L; congruence|reflexivity].
-Qed.
-
-Lemma wif_decode_net_ver_refuted :
-  exists (sha256 : list N -> list N) s nv,
-    in_family (wif_decode Gen.Consts.b58_alph_btc Gen.Consts.b58_radix Gen.Consts.b58_cklen sha256 s nv) = false.
-Proof.
-  exists (fun _ => repeat 0 32), (Base58.encode Gen.Consts.b58_alph_btc Gen.Consts.b58_radix [128; 0; 0; 0; 0]), [].
-  vm_compute. reflexivity.
-Qed.
